@@ -71,7 +71,7 @@ def main():
     probe = req.get("probe", [])
     zi = zoneinfo.ZoneInfo(req["zone"])
     zone_ok = all(time.localtime(i // 10 ** 6).tm_gmtoff == (EPOCH + i * US).astimezone(zi).utcoffset().total_seconds() for i in probe)
-    for c in req["cases"]:
+    for ci, c in enumerate(req["cases"]):
         try:
             if c["kind"] == "conv":
                 d = build(c["rep"])
@@ -90,8 +90,12 @@ def main():
                 log = []
                 ds = {k: build(c[k]) for k in ("fresh", "s", "s2", "a", "b")}
                 plan, reg = uberjob.Plan(), uberjob.Registry()
-                s = reg.source(plan, St("s", ds["s"], log))
-                s2 = reg.source(plan, St("s2", ds["s2"], log))
+                if ci % 2:     # the bundled sources carry the datetime they were given
+                    s = reg.source(plan, uberjob.stores.LiteralSource(0, ds["s"]))
+                    s2 = reg.source(plan, uberjob.stores.ModifiedTimeSource(ds["s2"]))
+                else:
+                    s = reg.source(plan, St("s", ds["s"], log))
+                    s2 = reg.source(plan, St("s2", ds["s2"], log))
                 a = plan.call(ident, s)
                 reg.add(a, St("a", ds["a"], log))
                 u = plan.call(ident, a, s2)
